@@ -219,6 +219,9 @@ def interleaving_case(draw):
                 "abort": draw(st.sampled_from([None, None, 0, 1, 2])),
                 "script": draw(st.lists(st.sampled_from(["ok", "fail", "fail"]), min_size=1, max_size=2)),
                 "susp": draw(st.sampled_from([1, 1, 2, 3])),
+                # the caller's metric hook dies with a BaseException (Ctrl-C, sys.exit, task cancellation) when it is
+                # told that the call was rejected: a call that was never admitted must still not touch the probe slot
+                "rej_raise": draw(st.sampled_from([None, None, None, "KeyboardInterrupt", "SystemExit", "CancelledError"])),
             }
         )
     sched = draw(
@@ -275,6 +278,16 @@ def check_interleaving(case: dict) -> Verdict:
             kw = {}
             if t["abort"] is not None:
                 kw["abort_if"] = abort_if
+            if t.get("rej_raise"):
+                import asyncio
+
+                xt = {"KeyboardInterrupt": KeyboardInterrupt, "SystemExit": SystemExit, "CancelledError": asyncio.CancelledError}[t["rej_raise"]]
+
+                def on_metric(event, attempt, sleep_s, tags):
+                    if event == "circuit_rejected":
+                        raise xt()
+
+                kw["on_metric"] = on_metric
             return getattr(pol, t["mode"])(op, **kw)
 
         coros = {i: make_task(i, t) for i, t in enumerate(case["tasks"])}
